@@ -27,8 +27,12 @@
 //!   batch/valid-query-error, batch/failing-query-ok   error response for a valid query / success for a failing one
 //!   batch/malformed-response          a response is not `{request, …}`
 //!   pipeline/sibling-responses-lost   fewer responses than expanded queries (element-wise count with the real plugins)
+//!   (keys of repaired defects — request-not-echoed, query-unanswered, unknown-origin-accepted, total-not-reproducible,
+//!    batch/empty, batch/whole-batch-error, inject/non-object, grid/degenerate — fire again if the defect returns)
 //!   pipeline/query-unanswered         a query got no response at all
-//!   search/unknown-origin-accepted    an out-of-range origin id (no destination) is answered with a success
+//!   search/unknown-origin-accepted    an out-of-range origin / destination id is answered with a success
+//!   cost/total-not-reproducible       the same query reports total_cost values that differ from run to run
+//!   response/not-reproducible         the same query gives different responses in two runs in the same process
 //!   pipeline/request-not-echoed       no response of a query carries it as `request`
 //!   pipeline/request-altered          an object query's fields are not all present in its response's `request`
 //!   inject/non-object, grid/degenerate   rekeyed panic / timeout on the historical witnesses
@@ -269,7 +273,7 @@ pub fn config_toml(dir: &Path, parallelism: usize, traversal: Traversal, plugins
             let cache_line = if cache { "float_cache_policy = { cache_size = 1000, key_precisions = [-1, 0] }\n" } else { "" };
             format!(
                 "[traversal]\ntype = \"energy_model\"\ngrade_table_grade_unit = \"decimal\"\ntime_unit = \"minutes\"\ndistance_unit = \"miles\"\n[traversal.time_model]\ntype = \"speed_table\"\nspeed_table_input_file = \"{d}/speeds.csv\"\nspeed_unit = \"kilometers_per_hour\"\ndistance_unit = \"miles\"\ntime_unit = \"minutes\"\n[[traversal.vehicles]]\nname = \"camry\"\ntype = \"ice\"\nmodel_input_file = \"{model}\"\nmodel_type = \"smartcore\"\nspeed_unit = \"miles_per_hour\"\ngrade_unit = \"decimal\"\nenergy_rate_unit = \"gallons_gasoline_per_mile\"\nideal_energy_rate = 0.02857143\nreal_world_energy_adjustment = 1.166\n{cache_line}[cost]\ncost_aggregation = \"sum\"\n[cost.weights]\ndistance = 1\ntime = 1\nenergy_liquid = 1\n[cost.vehicle_rates.time]\ntype = \"raw\"\n[cost.vehicle_rates.distance]\ntype = \"raw\"\n[cost.vehicle_rates.energy_liquid]\ntype = \"raw\"\n",
-                model = "/repo/rust/routee-compass-powertrain/src/routee/test/Toyota_Camry.bin"
+                model = format!("{}/rust/routee-compass-powertrain/src/routee/test/Toyota_Camry.bin", std::env::var("VERIF_REPO").unwrap_or_else(|_| "/repo".to_string()))
             )
         }
     };
@@ -399,15 +403,14 @@ fn canon_response(r: &Value) -> Value {
     }
     match obj.get("route") {
         Some(Value::Object(route)) => {
-            // `total_cost` is `HashMap::values().fold(+)` in `CostModel::serialize_cost`: with three or more cost
-            // components its last bit depends on the map's (per-instance random) iteration order, for one and the
-            // same query.  It is a derived value: compared against the sum of the components with a tolerance
-            // here, and left out of the bit-exact comparison.
-            let mut cost = sort_keys(route.get("cost").unwrap_or(&Value::Null));
+            // `total_cost` is the sum of the cost components in feature order (`CostModel::serialize_cost`; it used
+            // to be folded over a HashMap, so its last bit varied from run to run): compared bit-exactly like the
+            // components, and checked against their sum with a tolerance.
+            let cost = sort_keys(route.get("cost").unwrap_or(&Value::Null));
             let mut check = Value::Null;
-            if let Value::Object(m) = &mut cost {
-                if let Some(total) = m.shift_remove("total_cost").and_then(|t| t.as_f64()) {
-                    let sum: f64 = m.values().filter_map(|v| v.as_f64()).sum();
+            if let Value::Object(m) = &cost {
+                if let Some(total) = m.get("total_cost").and_then(|t| t.as_f64()) {
+                    let sum: f64 = m.iter().filter(|(k, _)| k.as_str() != "total_cost").filter_map(|(_, v)| v.as_f64()).sum();
                     if !((total - sum).abs() <= 1e-9 * total.abs().max(1.0)) {
                         check = json!(format!("total_cost {} != sum of components {}", total, sum));
                     }
@@ -426,6 +429,15 @@ fn canon_response(r: &Value) -> Value {
         Some(other) => json!({"request": req, "route": sort_keys(other)}),
         None => json!({"request": req, "route": "absent"}),
     }
+}
+
+/// the canonical response without `route.cost.total_cost`
+fn strip_total(c: &Value) -> Value {
+    let mut c = c.clone();
+    if let Some(Value::Object(cost)) = c.get_mut("route").and_then(|r| r.get_mut("cost")) {
+        cost.shift_remove("total_cost");
+    }
+    c
 }
 
 // ---------------------------------------------------------------------------------------------
@@ -496,6 +508,8 @@ pub struct Report {
     pub tables: BTreeMap<usize, Vec<TableRec>>,
     /// (compact text of expanded query, encoded canonical response)
     pub respond: Vec<(String, String)>,
+    /// expanded queries whose response differed between two runs in the same process: (only total_cost?, query)
+    pub not_reproducible: Vec<(bool, String)>,
     pub complete: bool,
 }
 
@@ -622,6 +636,16 @@ fn child_work(fx: &Fixture, batch: &[Value], jobs: &[Job], want_alone: bool, emi
                     Err(_) => json!({"request": e, "error": "RunSingleQueryPanic"}),
                 };
                 emit(format!("R {} {}", hex(&key), enc(&c)));
+                // the same query once more: the response must be reproducible bit for bit
+                let again = std::panic::catch_unwind(std::panic::AssertUnwindSafe(|| {
+                    run_single_query(&e, &app.search_orientation, &app.output_plugins, &app.search_app)
+                }));
+                if let Ok(Ok(v2)) = again {
+                    let c2 = canon_response(&v2);
+                    if enc(&c2) != enc(&c) {
+                        emit(format!("N {} {} {}", if strip_total(&c) == strip_total(&c2) { "total" } else { "other" }, hex(&key), enc(&c2)));
+                    }
+                }
             }
         }
         match ideal_count(&app.input_plugins, q) {
@@ -709,6 +733,12 @@ fn parse_report(text: &str, n_jobs: usize, n_batch: usize, want_alone: bool) -> 
                     }
                 }
             }
+            "N" => {
+                let mut p = rest.splitn(3, ' ');
+                if let (Some(kind), Some(k)) = (p.next(), p.next()) {
+                    rep.not_reproducible.push((kind == "total", unhex(k).unwrap_or_default()));
+                }
+            }
             "T" => {
                 let mut p = rest.splitn(3, ' ');
                 if let (Some(i), Some(k), Some(o)) = (p.next(), p.next(), p.next()) {
@@ -726,16 +756,27 @@ fn parse_report(text: &str, n_jobs: usize, n_batch: usize, want_alone: bool) -> 
 
 /// run the work in a forked child: `secs` alarm, 6 GiB address space (16 worker threads reserve a lot)
 fn forked(fx: &Fixture, batch: &[Value], jobs: &[Job], want_alone: bool, secs: u32) -> Report {
+    for attempt in 0..5 {
+        if let Some(r) = forked_once(fx, batch, jobs, want_alone, secs) {
+            return r;
+        }
+        // pipe() or fork() failed (process table full on a loaded machine): wait and try again
+        std::thread::sleep(std::time::Duration::from_millis(500 * (attempt + 1)));
+    }
+    parse_report("", jobs.len(), batch.len(), want_alone)
+}
+
+fn forked_once(fx: &Fixture, batch: &[Value], jobs: &[Job], want_alone: bool, secs: u32) -> Option<Report> {
     unsafe {
         let mut fds = [0i32; 2];
         if libc::pipe(fds.as_mut_ptr()) != 0 {
-            return parse_report("", jobs.len(), batch.len(), want_alone);
+            return None;
         }
         let pid = libc::fork();
         if pid < 0 {
             libc::close(fds[0]);
             libc::close(fds[1]);
-            return parse_report("", jobs.len(), batch.len(), want_alone);
+            return None;
         }
         if pid == 0 {
             libc::close(fds[0]);
@@ -776,7 +817,7 @@ fn forked(fx: &Fixture, batch: &[Value], jobs: &[Job], want_alone: bool, secs: u
         let mut status = 0i32;
         libc::waitpid(pid, &mut status, 0);
         let text = String::from_utf8_lossy(&buf).to_string();
-        parse_report(&text, jobs.len(), batch.len(), want_alone)
+        Some(parse_report(&text, jobs.len(), batch.len(), want_alone))
     }
 }
 
@@ -950,14 +991,15 @@ fn failing_query(fx: &Fixture, rng: &mut Rng) -> GenQ {
             ("isolated_origin", Expect::Err)
         }
         2 if direct => {
-            let big = [n as u64 + 5, 99_999, 1u64 << 40, u64::MAX][rng.below(4)];
+            let count = if fx.edge_oriented { fx.net.edges.len() } else { n };
+            let big = [count as u64 + 5, 99_999, 1u64 << 40, u64::MAX][rng.below(4)];
             if rng.chance(1, 2) {
                 m.insert(okey.into(), json!(big));
                 unknown_origin = true;
             } else {
                 m.insert(dkey.into(), json!(big));
             }
-            ("unknown_id", if fx.edge_oriented { Expect::Any } else { Expect::Err })
+            ("unknown_id", Expect::Err)
         }
         3 if direct => {
             m.shift_remove(okey);
@@ -1402,7 +1444,15 @@ fn run_case(ctx: &mut Ctx, fx: &Fixture, persist_cfg: bool, gens: &[GenQ], plans
     // historical witness are run with a short fuse (they are reported all the same)
     let dead_so_far = DEAD_CHILDREN.load(std::sync::atomic::Ordering::Relaxed);
     let secs = if dead_so_far >= 4 && gens.iter().any(|g| g.danger.is_some()) { 2 } else { secs };
-    let rep = forked(fx, &batch, &jobs, true, secs);
+    let mut rep = forked(fx, &batch, &jobs, true, secs);
+    let suspicious = |r: &Report| !r.complete || r.jobs.iter().chain(r.alone.iter()).chain(r.alone_discard.iter()).any(|o| matches!(o, RunOut::Panic | RunOut::Dead));
+    if suspicious(&rep) {
+        // a loaded machine (alarm, fork or thread creation failing) must not turn into a finding: a defect of the
+        // code is deterministic and shows again; once more, with six times the limit
+        ctx.count("child_retried");
+        std::thread::sleep(std::time::Duration::from_millis(200));
+        rep = forked(fx, &batch, &jobs, true, secs * 6);
+    }
     if !rep.complete {
         DEAD_CHILDREN.fetch_add(1, std::sync::atomic::Ordering::Relaxed);
     }
@@ -1436,6 +1486,13 @@ fn run_case(ctx: &mut Ctx, fx: &Fixture, persist_cfg: bool, gens: &[GenQ], plans
     if !rep.complete {
         ctx.fail(first_idx, danger.unwrap_or("batch/timeout"), format!("the child running the batch was killed (alarm / memory limit / abort) under {}: batch {}", fx.label, clip(&Value::Array(batch.clone()).to_string())));
         return;
+    }
+    for (only_total, q) in &rep.not_reproducible {
+        if *only_total {
+            ctx.fail(first_idx, "cost/total-not-reproducible", format!("two runs of the query {} in the same process report total_cost values that differ (all cost components equal) under {}", clip(q), fx.label));
+        } else {
+            ctx.fail(first_idx, "response/not-reproducible", format!("two runs of the query {} in the same process give different responses under {}", clip(q), fx.label));
+        }
     }
     // union of the alone runs
     let mut alone_ok = true;
@@ -1558,7 +1615,9 @@ fn run_case(ctx: &mut Ctx, fx: &Fixture, persist_cfg: bool, gens: &[GenQ], plans
                     }
                 }
                 if sorted(want.clone()) != sorted(rs.clone()) {
+                    let stripped = |v: &Vec<String>| sorted(v.iter().map(|x| enc(&strip_total(&decode(x)))).collect());
                     let key = match (p.persist, p.kind) {
+                        _ if stripped(&want) == stripped(rs) => "cost/total-not-reproducible",
                         (false, _) => "batch/discard-policy",
                         (_, JobKind::Perm) => "batch/order-dependent",
                         (_, JobKind::Par) => "batch/parallelism-dependent",
@@ -1710,6 +1769,7 @@ fn plugin_configs() -> Vec<(&'static str, Vec<PluginSpec>, bool)> {
         ("vertex_rtree", vec![PluginSpec::VertexRtree { tolerance_m: Some(60.0) }], false),
         ("grid+vertex_rtree+lb_haversine", vec![PluginSpec::Grid, PluginSpec::VertexRtree { tolerance_m: None }, PluginSpec::LbHaversine], false),
         ("edge_rtree", vec![PluginSpec::EdgeRtree { tolerance_m: Some(80.0) }], true),
+        ("none_edge_oriented", vec![], true),
         ("grid+inject+lb_numeric", vec![PluginSpec::Grid, inj(Some(true)), PluginSpec::LbNum { col: Some(LB_COL.to_string()) }], false),
     ]
 }
@@ -1783,8 +1843,8 @@ fn cache_demo(ctx: &mut Ctx, fx: &Fixture, control: Option<&Fixture>, rng: &mut 
         let rev: Vec<usize> = ident.iter().rev().copied().collect();
         let cfg = run_cfg_value(Some(1), Some(true));
         let Some(idx) = ctx.begin() else { continue };
-        let a = forked(fx, &batch, &[Job { order: ident.clone(), run_cfg: cfg.clone(), pool: 1 }], false, 20);
-        let b = forked(fx, &batch, &[Job { order: rev, run_cfg: cfg.clone(), pool: 1 }], false, 20);
+        let a = forked(fx, &batch, &[Job { order: ident.clone(), run_cfg: cfg.clone(), pool: 1 }], false, 120);
+        let b = forked(fx, &batch, &[Job { order: rev, run_cfg: cfg.clone(), pool: 1 }], false, 120);
         let fmt = fmt_table(fx, &batch);
         ctx.emit(idx, case_line(fx, &a, &batch, &ident, Some(1), true, &fmt), out_line(&a.jobs[0]));
         ctx.count("corpus_rounded_cache");
@@ -1792,8 +1852,8 @@ fn cache_demo(ctx: &mut Ctx, fx: &Fixture, control: Option<&Fixture>, rng: &mut 
         if let Some(cfx) = control {
             let cg: Vec<GenQ> = (0..6).map(|_| valid_query(cfx, rng)).collect();
             let cb: Vec<Value> = cg.iter().map(|g| g.q.clone()).collect();
-            let ca = forked(cfx, &cb, &[Job { order: ident.clone(), run_cfg: cfg.clone(), pool: 1 }], false, 20);
-            let cr = forked(cfx, &cb, &[Job { order: ident.iter().rev().copied().collect(), run_cfg: cfg.clone(), pool: 1 }], false, 20);
+            let ca = forked(cfx, &cb, &[Job { order: ident.clone(), run_cfg: cfg.clone(), pool: 1 }], false, 120);
+            let cr = forked(cfx, &cb, &[Job { order: ident.iter().rev().copied().collect(), run_cfg: cfg.clone(), pool: 1 }], false, 120);
             match (&ca.jobs[0], &cr.jobs[0]) {
                 (RunOut::Ok(x), RunOut::Ok(y)) if sorted(x.clone()) == sorted(y.clone()) => ctx.count("cache_control_equal"),
                 _ => ctx.fail(idx, "batch/order-dependent", format!("energy model WITHOUT cache policy: the batch in reverse order (fresh process) returns different responses: {}", clip(&Value::Array(cb.clone()).to_string()))),
@@ -1870,7 +1930,7 @@ pub fn run(ctx: &mut Ctx, profile: Profile) -> &'static str {
             gq(json!({"origin_vertex": 2, "destination_vertex": 0, "query_weight_estimate": null}), Expect::Ok, "odd_weight_estimate", None),
         ];
         run_case(ctx, fx, *pc, &b, simple(vec![None, Some(3)], 3), "corpus_weight_estimate", 20);
-        // S2: non-object queries without any plugin
+        // non-object queries without any plugin (adb1ee2: they were answered with the placeholder request)
         let b = vec![
             gq(json!(5), Expect::Any, "non_object", None),
             gq(json!({"origin_vertex": 0, "destination_vertex": 3}), Expect::Ok, "valid_route", None),
@@ -1879,15 +1939,28 @@ pub fn run(ctx: &mut Ctx, profile: Profile) -> &'static str {
             gq(json!([{"origin_vertex": 1, "destination_vertex": 2}]), Expect::Any, "non_object", None),
         ];
         run_case(ctx, fx, *pc, &b, simple(vec![None, Some(2)], 5), "corpus_non_object", 20);
-        // an out-of-range origin id without destination (oracle finding search/unknown-origin-accepted)
-        let mut g = gq(json!({"origin_vertex": 99999}), Expect::Err, "unknown_id", None);
-        g.fail_key = Some("search/unknown-origin-accepted");
-        let b = vec![g, gq(json!({"origin_vertex": 99999, "destination_vertex": 1}), Expect::Err, "unknown_id", None), gq(json!({"origin_vertex": 1, "destination_vertex": 99999}), Expect::Err, "unknown_id", None)];
-        run_case(ctx, fx, *pc, &b, simple(vec![None], 3), "corpus_unknown_origin", 20);
+        // out-of-range ids must be answered with an error (the destination-less one used to succeed with an empty tree)
+        let unk = |q: Value| {
+            let mut g = gq(q, Expect::Err, "unknown_id", None);
+            g.fail_key = Some("search/unknown-origin-accepted");
+            g
+        };
+        let b = vec![unk(json!({"origin_vertex": 99999})), unk(json!({"origin_vertex": 99999, "destination_vertex": 1})), unk(json!({"origin_vertex": 1, "destination_vertex": 99999})), unk(json!({"origin_vertex": 1u64 << 40}))];
+        run_case(ctx, fx, *pc, &b, simple(vec![None], 4), "corpus_unknown_id", 20);
         // S4: per-run parallelism 0
         let b = vec![gq(json!({"origin_vertex": 0, "destination_vertex": 3}), Expect::Ok, "valid_route", None), gq(json!(5), Expect::Any, "non_object", None)];
         run_case(ctx, fx, *pc, &b, simple(vec![Some(0)], 2), "corpus_parallelism_0", 20);
         run_case(ctx, fx, *pc, &b[1..], simple(vec![Some(0)], 1), "corpus_parallelism_0", 20);
+    }
+    if let Some(i) = find("none_edge_oriented") {
+        let (fx, pc) = &fixtures[i];
+        let unk = |q: Value| {
+            let mut g = gq(q, Expect::Err, "unknown_id", None);
+            g.fail_key = Some("search/unknown-origin-accepted");
+            g
+        };
+        let b = vec![unk(json!({"origin_edge": 99999})), unk(json!({"origin_edge": 99999, "destination_edge": 1})), unk(json!({"origin_edge": 1, "destination_edge": 99999})), unk(json!({"origin_edge": 1u64 << 40}))];
+        run_case(ctx, fx, *pc, &b, simple(vec![None], 4), "corpus_unknown_id", 20);
     }
     if let Some((fx, pc)) = &zero {
         let b = vec![gq(json!({"origin_vertex": 0, "destination_vertex": 3}), Expect::Ok, "valid_route", None), gq(json!({"origin_vertex": 1, "destination_vertex": 2}), Expect::Ok, "valid_route", None)];
@@ -1920,7 +1993,7 @@ pub fn run(ctx: &mut Ctx, profile: Profile) -> &'static str {
     }
     if let Some(i) = find("grid") {
         let (fx, pc) = &fixtures[i];
-        // the empty array is flattened away (finding pipeline/query-unanswered); a nested array is a batch in a query
+        // adb1ee2: the empty array was flattened away without a response, a nested array was split into queries
         let b = vec![
             gq(json!([]), Expect::Any, "non_object", None),
             gq(json!({"origin_vertex": 0, "destination_vertex": 3}), Expect::Ok, "valid_route", None),
